@@ -5,6 +5,7 @@ package main
 // and checks that every result is one the sequential execution produces for some version and limit.
 
 import (
+	"time"
 	"bytes"
 	"fmt"
 	"os"
@@ -367,6 +368,9 @@ func cmdRunC06(args []string) {
 	}
 	for k := range bad {
 		c.propfail("C06", "result under concurrency is not one a sequential execution produces for any version/limit: "+strings.ReplaceAll(k, "\t", " "))
+	}
+	if f := limitStress(800 * time.Millisecond); f != "" {
+		c.propfail("C06", f)
 	}
 	c.emit("c06done", fmt.Sprint(nres))
 	c.finish()
